@@ -12,6 +12,7 @@ package stack
 //@ func (*stack.Stack).size
 //@   property C06
 //@   inline
+//@   lock s.mu : R
 
 //@ func (*stack.Stack).Push
 //@   property C06 C01 C02
@@ -47,3 +48,5 @@ package stack
 //@   property C06 C01 C02
 //@   lock s.mu : none
 //@   ensures result == len(s.items) && result >= 0
+
+//@ guards stack.Stack.mu : items, elems(items)
